@@ -30,7 +30,7 @@ FLOOR = {"quick": 60, "thorough": 400}
 def parts(tier):
     if tier == "quick":
         return [{"name": "ranks", "n": 16}, {"name": "e2e", "n": 256}, {"name": "model", "n": 4000}]
-    return [{"name": "ranks", "n": 16}, {"name": "e2e", "n": 5000}, {"name": "model", "n": 100000}]
+    return [{"name": "ranks", "n": 16}, {"name": "e2e", "n": 4000}, {"name": "model", "n": 60000}]
 
 
 def run_ranks(tier, ctx, si, sc):
